@@ -431,17 +431,29 @@ Proof. exact cap_complement_covers_under_H. Qed.
 Print Assumptions cap_complement_covers_H.
 
 (** s1.Interval.Expanded / s2.Rect.expanded --------------------------------
-    under the named hypothesis H_S1EXPAND (the two wrapped endpoints enclose the original arc
-    whenever the 2*dblEpsilon guard did not return the full circle: float expressions and
-    reals only); the theorems add the code's branching and normalisation of -pi. *)
+    FINDING: "expansion by a non-negative margin keeps every original point" is false of
+    s1.Interval.Expanded as it is: when Length + 2*margin + 2*dblEpsilon evaluates to one ulp
+    below 2*pi the result is a single point. *)
+Theorem s1_expanded_keeps_everything_refuted : exists i m p,
+  s1_Interval_IsValid i = true /\ PrimFloat.leb 0%float m = true /\
+  s1_Interval_Contains i p = true /\
+  s1_Interval_IsValid (s1_Interval_Expanded i m) = true /\
+  s1_Interval_Contains (s1_Interval_Expanded i m) p = false.
+Proof. exact s1_expanded_refuted. Qed.
+Print Assumptions s1_expanded_keeps_everything_refuted.
+
+(** outside that one-ulp zone ([exp_safe]: empty, or the guard fires, or its value is at least
+    two ulps below 2*pi) and under the named hypothesis H_S1EXPAND (there the two wrapped
+    endpoints enclose the original arc: float expressions and reals only) the property holds;
+    the theorems add the code's branching and the normalisations of -pi. *)
 Theorem s1_expanded_keeps_everything_H : H_S1EXPAND -> forall i m x,
-  valid_s1 i -> nonnan m -> 0 <= rank m -> inrange x ->
+  valid_s1 i -> nonnan m -> 0 <= rank m -> exp_safe i m -> inrange x ->
   mem_s1 i x -> mem_s1 (s1_Interval_Expanded i m) x.
 Proof. exact s1_expanded_sound_under_H. Qed.
 Print Assumptions s1_expanded_keeps_everything_H.
 
 Theorem s1_expanded_valid_H : H_S1EXPAND -> forall i m,
-  valid_s1 i -> nonnan m -> 0 <= rank m -> valid_s1 (s1_Interval_Expanded i m).
+  valid_s1 i -> nonnan m -> 0 <= rank m -> exp_safe i m -> valid_s1 (s1_Interval_Expanded i m).
 Proof. exact s1_expanded_valid_under_H. Qed.
 Print Assumptions s1_expanded_valid_H.
 
@@ -449,6 +461,7 @@ Theorem s2rect_expanded_keeps_everything_H : H_S1EXPAND -> forall r mg lat x,
   valid_s2rect r -> vlat lat -> inrange x ->
   nonnan (s2_LatLng_Lat mg) -> 0 <= rank (s2_LatLng_Lat mg) ->
   nonnan (s2_LatLng_Lng mg) -> 0 <= rank (s2_LatLng_Lng mg) ->
+  exp_safe (s2_Rect_Lng r) (s2_LatLng_Lng mg) ->
   wf1 (r1_Interval_Expanded (s2_Rect_Lat r) (s2_LatLng_Lat mg)) ->
   mem_s2rect r lat x -> mem_s2rect (s2_Rect_expanded r mg) lat x.
 Proof. exact s2rect_expanded_sound_under_H. Qed.
